@@ -101,6 +101,7 @@ type c11Case struct {
 	calls []c11MC
 	f     *c11Frame
 	// raw
+	metaRow    []byte // metarow: the row key of the meta row
 	lateCancel bool   // multi: the calls' contexts end between the request and the response
 	rawMode    string // trunc:<n> | flip:<pos>:<val> | rand:<len> | whole
 	rawSeed    uint64
@@ -1032,6 +1033,65 @@ func (c *c11Case) rawBytes0(wireID uint32) []byte {
 
 // ------------------------------------------------------------------ region info, coalescing
 
+// c11RunMetaRow: a meta row with the given key is parsed; if the client accepts it, the region it
+// describes goes where such regions go next: into the location cache (next to another region of
+// the table) and under a lookup.
+func c11RunMetaRow(c *c11Case) string {
+	row := exact(c.metaRow)
+	cells := []*hrpc.Cell{
+		{Row: row, Family: []byte("info"), Qualifier: []byte("regioninfo"), Value: exact(c.infoVal)},
+		{Row: row, Family: []byte("info"), Qualifier: []byte("server"), Value: []byte("host:16020")},
+	}
+	impl := func() (res string) {
+		defer func() {
+			if r := recover(); r != nil {
+				res = "panic"
+			}
+		}()
+		reg, _, err := region.ParseRegionInfo(&hrpc.Result{Cells: cells})
+		if err != nil {
+			return "err"
+		}
+		cache := gohbase.VerifNewCache()
+		cache.Put(region.NewInfo(1, nil, []byte("t"), []byte("t,,1.aaaa."), nil, []byte("a")))
+		cache.Put(reg)
+		cache.Get(gohbase.VerifSearchKey([]byte("t"), []byte("b")))
+		cache.Del(reg)
+		return "ok"
+	}()
+	return fmt.Sprintf("c11 metarow %s %s", hx(row), impl)
+}
+
+// c11RunIncr: the answer to an Increment carries one cell whose value has the given length.
+func c11RunIncr(c *c11Case) string {
+	cl := newSimCluster()
+	r := cl.addRegion(nil, []byte("t"), nil, nil, "rs1:1")
+	r.mutateValue = exact(c.infoVal)
+	if r.mutateValue == nil {
+		r.mutateValue = []byte{}
+	}
+	sc := newSimClient(cl)
+	defer sc.cl.Close()
+	impl := func() (res string) {
+		defer func() {
+			if rec := recover(); rec != nil {
+				res = "panic"
+			}
+		}()
+		ctx, cancel := context.WithTimeout(context.Background(), 5*time.Second)
+		defer cancel()
+		inc, err := hrpc.NewIncStrSingle(ctx, "t", "k", "f", "q", 1)
+		if err != nil {
+			return "build-" + err.Error()
+		}
+		if _, err := sc.cl.Increment(inc); err != nil {
+			return "err"
+		}
+		return "ok"
+	}()
+	return fmt.Sprintf("c11 incr %d %s", len(c.infoVal), impl)
+}
+
 func c11RunInfo(c *c11Case) string {
 	val := exact(c.infoVal)
 	pbs := "short"
@@ -1190,6 +1250,10 @@ func (c *c11Case) desc() string {
 	switch c.op {
 	case "info":
 		return "info " + hx(c.infoVal)
+	case "metarow":
+		return "metarow " + hx(c.metaRow)
+	case "incr":
+		return fmt.Sprintf("incr %d", len(c.infoVal))
 	case "coalesce":
 		return fmt.Sprintf("coalesce %v %v", c.allowPartial, c.script)
 	}
@@ -1215,7 +1279,7 @@ func (c *c11Case) desc() string {
 
 func (c *c11Case) crashKind() string {
 	switch c.op {
-	case "info", "coalesce":
+	case "info", "coalesce", "metarow", "incr":
 		return c.op
 	}
 	return c.kind
@@ -1227,6 +1291,10 @@ func c11RunOne(c *c11Case) (line string, clean bool) {
 	switch c.op {
 	case "info":
 		return c11RunInfo(c), true
+	case "metarow":
+		return c11RunMetaRow(c), true
+	case "incr":
+		return c11RunIncr(c), true
 	case "coalesce":
 		return c11RunCoalesce(c), true
 	}
